@@ -19,7 +19,7 @@ RULE = ('a case = (reference SDR device: repository and device-SDR store of 0..4
         'property: a returned record is the stored one with its successor id; a returned list is all records once in '
         'order; any other end is RetryError/CompletionCodeError; a Get answered C5h is followed by the Reserve of the same '
         'store and no Reserve of the other store is ever issued; reads that fit the budget (limit >= 5, iterations <= 19, <= 2 cancellations, no transients) complete.  '
-        'Directed: lengths 5,6,24,25,26,64,255..260 x limits 3,4,5,8,12,16,19,20,21,255; a cancellation / transient before '
+        'Directed: lengths 5,6,24,25,26,64,255..260 x limits 3,4,5,8,12,16,19,20,21,255; a cancellation / transient / burst of 3 and of 4 transients (chunk budget) before '
         'every request index of the fault-free run, pairs and triples of cancellations.  Distinct by (device, operation); '
         'non-trivial = at least three exchanges.  HISTORIES on ONE Ipmi object over BOTH stores against one device: store '
         'A read or listed, then store B read or listed with a cancellation / a C3h|CEh before EVERY request index, then '
@@ -639,6 +639,9 @@ def run(ctx):
                 for k in range(T + 1):
                     go(dict(d, cancels=[k]), op, 'cancel-at-every-index')
                     go(dict(d, transients=[[k, rng.choice([0xC3, 0xCE])]]), op, 'transient-at-every-index')
+                    # four in a row exhaust the budget of one chunk read (RetryError out of the chunk helper), three do not
+                    go(dict(d, transients=[[k + i, rng.choice([0xC3, 0xCE])] for i in range(4)]), op, 'transient-burst')
+                    go(dict(d, transients=[[k + i, rng.choice([0xC3, 0xCE])] for i in range(3)]), op, 'transient-burst')
                     if quick and k % 3:
                         continue
                     go(dict(d, cancels=[k, k + 1]), op, 'cancel-pair')
